@@ -8,6 +8,7 @@ import (
 	"fmt"
 	"net"
 	"sync"
+	"sync/atomic"
 	"time"
 
 	"github.com/containerd/nri/pkg/net/multiplex"
@@ -33,7 +34,20 @@ type xferScn struct {
 	// middle of a payload of a MiB or more, i.e. while another writer's multi-frame Write holds the
 	// trunk: they then compete for the trunk at every point where that Write could let go of it
 	Gated [2][]int `json:"gated,omitempty"`
+	// Gone[d]: ids the writers of side d also write to although nobody can read them at the other end:
+	// never opened there, or (GoneClosed[d], a subset) opened there and closed with conn.Close before the
+	// start.  The receiving reader has to drop exactly those frames and nothing else.
+	Gone       [2][]uint32 `json:"gone,omitempty"`
+	GoneClosed [2][]uint32 `json:"goneclosed,omitempty"`
+	// Blocked: the readers of both Muxes stay blocked (WithBlockedRead) until every writer has finished
+	// ("written": everything is in the socket buffer back to back, as when a runtime unblocks a plugin's Mux
+	// late) or until a payload of a MiB or more is on its way ("big").  Unix socketpair only.
+	Blocked string `json:"blocked,omitempty"`
 }
+
+// blockedWait: a blocked scenario is unblocked after this time at the latest (the socket buffer was too
+// small for the whole traffic: the scenario is still valid, only less adversarial)
+const blockedWait = 3 * time.Second
 
 // gateWait is how long a gated writer waits for the large payload before it writes anyway.
 const gateWait = 5 * time.Second
@@ -74,6 +88,7 @@ type xferObs struct {
 	Dir   [2]dirObs `json:"dir"`
 	Fails []string  `json:"fails,omitempty"` // write errors, read errors, time-outs
 	Hung  bool      `json:"hung,omitempty"`  // the transfer did not complete within the bound
+	Early bool      `json:"early,omitempty"` // a blocked scenario was unblocked by the timer
 }
 
 // payload of write number seq of writer w: the first byte identifies the writer, the
@@ -158,7 +173,7 @@ func execXfer(s *xferScn, maxp int) *xferObs {
 	conns := [2]map[uint32]net.Conn{{}, {}}
 	for side := 0; side < 2; side++ {
 		muxes[side] = multiplex.Multiplex(recs[side], multiplex.WithReadQueueLength(s.QLen), multiplex.WithBlockedRead())
-		for _, id := range s.IDs {
+		for _, id := range append(append([]uint32{}, s.IDs...), s.Gone[side]...) {
 			cn, err := muxes[side].Open(multiplex.ConnID(id))
 			if err != nil {
 				fail("Open(%d): %v", id, err)
@@ -167,8 +182,52 @@ func execXfer(s *xferScn, maxp int) *xferObs {
 			conns[side][id] = cn
 		}
 	}
-	muxes[0].Unblock()
-	muxes[1].Unblock()
+	for side := 0; side < 2; side++ {
+		// ids that were open at the receiving end and are closed again before anything is sent
+		for _, id := range s.GoneClosed[1-side] {
+			cn, err := muxes[side].Open(multiplex.ConnID(id))
+			if err == nil {
+				err = cn.Close()
+			}
+			if err != nil {
+				fail("Open+Close(%d): %v", id, err)
+				return o
+			}
+		}
+	}
+	unblock := func() {
+		muxes[0].Unblock()
+		muxes[1].Unblock()
+	}
+	writtenC := make(chan struct{})
+	var early atomic.Bool
+	switch s.Blocked {
+	case "":
+		unblock()
+	case "written":
+		go func() {
+			select {
+			case <-writtenC:
+			case <-time.After(blockedWait):
+				early.Store(true)
+			}
+			unblock()
+		}()
+	case "big":
+		go func() {
+			t := time.After(blockedWait)
+			for side := 0; side < 2; side++ {
+				select {
+				case <-recs[side].bigC:
+				case <-writtenC:
+				case <-t:
+					early.Store(true)
+				}
+			}
+			unblock()
+		}()
+	}
+	defer func() { o.Early = early.Load() }()
 
 	// largest frame any reader can get
 	bufSize := 64
@@ -273,7 +332,7 @@ func execXfer(s *xferScn, maxp int) *xferObs {
 					}
 				}
 				for seq, x := range prog {
-					if !cr[side][x.ID].acquire(framesOf(x.Size, maxp)) {
+					if c0 := cr[side][x.ID]; c0 != nil && !c0.acquire(framesOf(x.Size, maxp)) {
 						return
 					}
 					b := bufs[seq]
@@ -304,6 +363,7 @@ func execXfer(s *xferScn, maxp int) *xferObs {
 				}
 			}
 		}
+		close(writtenC)
 		rwg.Wait()
 		close(finished)
 	}()
@@ -346,6 +406,9 @@ func execXfer(s *xferScn, maxp int) *xferObs {
 		}
 		if do.Regroup == "" {
 			for _, sw := range do.Serial {
+				if want[sw.ID] == nil {
+					continue // an id nobody reads at the other end
+				}
 				if sw.Writer < 0 {
 					want[sw.ID].Write(endMarker(sw.ID))
 				} else {
